@@ -209,6 +209,8 @@ struct BlockingHandleInner<BS: BlockingCmdTaskSender> {
 impl<BS: BlockingCmdTaskSender> BlockingHandleInner<BS> {
     fn release_all(&self) {
         loop {
+            #[cfg(feature = "verif")]
+            crate::common::verif::point("blocking.queue.try_recv");
             let cmd_task = match self.queue_receiver.try_recv() {
                 Ok(cmd_task) => cmd_task,
                 Err(err) => {
@@ -312,6 +314,8 @@ where
         }
         drop(counter);
 
+        #[cfg(feature = "verif")]
+        crate::common::verif::point("blocking.queue.send");
         if let Err(err) = self.queue_sender.send(cmd_task) {
             let cmd_task = err.into_inner();
             cmd_task.set_resp_result(Ok(Resp::Error(
@@ -337,6 +341,8 @@ where
     type Sender = BS;
 
     fn blocking_done(&self) -> bool {
+        #[cfg(feature = "verif")]
+        crate::common::verif::point("blocking.running_cmd.load");
         self.running_cmd.load(Ordering::SeqCst) == 0
     }
 
@@ -420,6 +426,8 @@ struct AutoCounter(Arc<AtomicI64>);
 
 impl AutoCounter {
     fn new(counter: Arc<AtomicI64>) -> Self {
+        #[cfg(feature = "verif")]
+        crate::common::verif::point("blocking.running_cmd.fetch_add(task)");
         counter.fetch_add(1, Ordering::SeqCst);
         Self(counter)
     }
@@ -427,6 +435,8 @@ impl AutoCounter {
 
 impl Drop for AutoCounter {
     fn drop(&mut self) {
+        #[cfg(feature = "verif")]
+        crate::common::verif::point("blocking.running_cmd.fetch_sub(task)");
         // TODO: This order could be relaxed.
         self.0.fetch_sub(1, Ordering::SeqCst);
     }
@@ -436,6 +446,8 @@ struct RefAutoCounter<'a>(&'a AtomicI64);
 
 impl<'a> RefAutoCounter<'a> {
     fn new(counter: &'a AtomicI64) -> Self {
+        #[cfg(feature = "verif")]
+        crate::common::verif::point("blocking.running_cmd.fetch_add(guard)");
         counter.fetch_add(1, Ordering::SeqCst);
         Self(counter)
     }
@@ -443,6 +455,8 @@ impl<'a> RefAutoCounter<'a> {
 
 impl<'a> Drop for RefAutoCounter<'a> {
     fn drop(&mut self) {
+        #[cfg(feature = "verif")]
+        crate::common::verif::point("blocking.running_cmd.fetch_sub(guard)");
         // TODO: This order could be relaxed.
         self.0.fetch_sub(1, Ordering::SeqCst);
     }
